@@ -53,10 +53,11 @@ class IndexWorld:
         self.lpv = z3.Int(f"{tag}_lpv")  # 0 = None
         for t in (self.unique, self.total, self.idxsize, self.lpv):
             pc.append(z3.And(t >= 0, t <= U64))
-        stats = VStruct("DbStats", [VStruct("CasStats", [VInt(self.unique, "u64"), VInt(self.total, "u64")]),
-                                    VStruct("IndexStats", [VInt(self.idxsize, "u64")])])
+        from structs import mk
+        stats = mk(ex, st, "DbStats", cas=mk(ex, st, "CasStats", unique_blobs=VInt(self.unique, "u64"), total_bytes=VInt(self.total, "u64")),
+                   index=mk(ex, st, "IndexStats", serialized_size_bytes=VInt(self.idxsize, "u64")))
         lpv = sym_option(self.lpv != 0, VInt(self.lpv, "u64"))
-        self.value = VStruct("IndexState", [self.kmap, self.rmap, lpv, stats])
+        self.value = mk(ex, st, "IndexState", key_to_hash=self.kmap, hash_to_ref_count=self.rmap, last_persisted_version=lpv, stats=stats)
         # the invariant on the pre-state
         pc.append(self.invariant(self.snapshot_pre()))
 
@@ -67,14 +68,17 @@ class IndexWorld:
 
     def snapshot_of(self, st, ref_or_val):
         v = st.load(ref_or_val) if isinstance(ref_or_val, VRef) else ref_or_val
-        km, rm, _, stats = v.fields
+        from structs import fget
+        ex = self.ex
+        km, rm, stats = fget(ex, v, "IndexState", "key_to_hash"), fget(ex, v, "IndexState", "hash_to_ref_count"), fget(ex, v, "IndexState", "stats")
+        cas_stats = fget(ex, stats, "DbStats", "cas")
         return dict(
             pk=[z3.Select(km.present, k) for k in self.keys],
             hk=[z3.Select(km.cols["blob_hash"], k) for k in self.keys],
             sk=[z3.Select(km.cols["blob_size"], k) for k in self.keys],
             rp=[z3.Select(rm.present, g) for g in self.hashes],
             rc=[z3.Select(rm.cols["v"], g) for g in self.hashes],
-            unique=stats.fields[0].fields[0].t, total=stats.fields[0].fields[1].t)
+            unique=fget(ex, cas_stats, "CasStats", "unique_blobs").t, total=fget(ex, cas_stats, "CasStats", "total_bytes").t)
 
     def counts(self, s):
         return [z3.Sum([z3.If(z3.And(s["pk"][i], s["hk"][i] == g), 1, 0) for i in range(self.U)])
@@ -160,28 +164,36 @@ class SystemWorld:
         self.writer_seg = z3.Int("w_writer_seg")
         pc += [self.writer_seg >= 0, self.writer_seg <= U64]
         wf = self.io.new_file(st, ("wal", self.writer_seg), append=True, create=True)
-        sw = VStruct("SegmentWriter", [VStruct("BufWriter", [wf, VVec([])]), VInt(self.writer_seg, "u64")])
+        from structs import mk, fidx
+        sw = mk(ex, st, "SegmentWriter", writer=VStruct("BufWriter", [wf, VVec([])]), segment_id=VInt(self.writer_seg, "u64"))
         if writer == "none":
             pc.append(z3.Not(self.has_writer))
         aw = sym_option(self.has_writer, sw)
-        self.wal = VStruct("WalManager", [VInt(self.N, "u64"), VInt(self.next, "u64"),
-                                          VStruct("SegmentStorage", [VStruct("DbPaths", [VOpaque("dbpaths")])]), aw])
+        self.wal = mk(ex, st, "WalManager", num_ops_per_wal=VInt(self.N, "u64"), next_op_version=VInt(self.next, "u64"),
+                      storage=VStruct("SegmentStorage", [VStruct("DbPaths", [VOpaque("dbpaths")])]), active_writer=aw)
         paths = VStruct("DbPaths", [VOpaque("dbpaths")])
-        self.index = VStruct("Index", [
-            paths,
-            VStruct("Arc", [VStruct("RwLock", [w.value, VOpaque("lockname", "state")])]),
-            VStruct("Mutex", [self.wal, VOpaque("lockname", "wal")]),
-            VStruct("Mutex", [self.intents, VOpaque("lockname", "pending_intents")])])
+        self.index = mk(ex, st, "Index", paths=paths,
+                        state=VStruct("Arc", [VStruct("RwLock", [w.value, VOpaque("lockname", "state")])]),
+                        wal=VStruct("Mutex", [self.wal, VOpaque("lockname", "wal")]),
+                        pending_intents=VStruct("Mutex", [self.intents, VOpaque("lockname", "pending_intents")]))
         self.precreated = z3.Bool("w_precreated")
-        self.casmgr = VStruct("CasManager", [paths.clone(), VBool(self.precreated)])
+        self.casmgr = mk(ex, st, "CasManager", paths=paths.clone(), dir_tree_is_pre_created=VBool(self.precreated))
         lockfile = self.io.new_file(st, ("lock",), write=True)
         chan = none() if sync_mode == "sync" else some(VOpaque("sender"))
-        self.cas = VStruct("CasInner", [paths.clone(), self.index, VStruct("Arc", [self.casmgr]), lockfile, chan])
+        self.cas = mk(ex, st, "CasInner", paths=paths.clone(), index=self.index, cas_manager=VStruct("Arc", [self.casmgr]),
+                      _lockfile=lockfile, datasync_channel=chan)
         self.cas_ref = VRef(st.alloc(self.cas))
-        self.index_ref = VRef(self.cas_ref.cell, (1,))
-        self.state_ref = VRef(self.cas_ref.cell, (1, 1, 0, 0))
-        self.intents_ref = VRef(self.cas_ref.cell, (1, 3, 0))
-        self.wal_ref = VRef(self.cas_ref.cell, (1, 2, 0))
+        self.set_refs(ex, self.cas_ref.cell, ())
+
+    def set_refs(self, ex, cell, prefix):
+        """references into the CasInner located at (cell, prefix), by field name"""
+        from structs import fidx
+        ci = fidx(ex, "CasInner", "index")
+        self.cas_ref = VRef(cell, prefix)
+        self.index_ref = VRef(cell, prefix + (ci,))
+        self.state_ref = VRef(cell, prefix + (ci, fidx(ex, "Index", "state"), 0, 0))
+        self.intents_ref = VRef(cell, prefix + (ci, fidx(ex, "Index", "pending_intents"), 0))
+        self.wal_ref = VRef(cell, prefix + (ci, fidx(ex, "Index", "wal"), 0))
 
     def sym_key(self, st, name):
         k = z3.Int(name)
